@@ -4,10 +4,23 @@ From Coq Require Import Bool List NArith ZArith Lia.
 From M Require Dispatch.
 From M Require Undefined.
 From M Require Undef113.
+From M Require EndToEnd.
+From M Require ArrayRoundTrip.
+From M Require DecSpec.
 From M Require Dispatch.
 From M Require Framing2.
+From M Require HdrSpec.
+From M Require LexBounds.
+From M Require LexModel.
+From M Require ListWs.
+From M Require MoreSpecs.
+From M Require NumList.
+From M Require ParamList.
 From M Require ParserModel.
+From M Require SimpleSpecs.
 From M Require Undefined.
+From M Require UnitFull.
+From M Require UnitSpec.
 Import ListNotations.
 
 Module T_dispatch_closed. Import Dispatch. Local Open Scope bool_scope. Local Open Scope Z_scope.
@@ -101,4 +114,19 @@ Theorem C02_undefined_count :
 Proof. exact (@Undef113.undefined_count). Qed.
 End T_undefined_count.
 Definition C02_undefined_count := @T_undefined_count.C02_undefined_count.
+
+Module T_message_reads_array. Import EndToEnd. Local Open Scope bool_scope. Local Open Scope Z_scope.
+Import LexModel LexBounds DecSpec MoreSpecs NumList SimpleSpecs ListWs HdrSpec UnitSpec UnitFull ParserModel ParamList ArrayRoundTrip. Local Open Scope Z_scope.
+Local Open Scope Z_scope.
+Theorem C02_message_reads_array :
+  forall c d lead m1 ms (q:bool) ws1 items hdr l pat tag cap m,
+  Mnem m1 -> Forall Mnem ms -> ws1 <> [] -> all isws ws1 -> Forall uint_item items -> items <> [] -> first_tight items ->
+  hdr = header_text lead m1 ms ++ (if q then [63%N] else []) ->
+  l = hdr ++ ws1 ++ list_text items ++ [10%N] ->
+  mem c = l -> find_cmd c hdr = Some (pat, tag, [PARR 14 cap m]) -> (length items <= Z.to_nat cap)%nat ->
+  exists c', scpi_parse c (Z.of_nat (length l)) d = (c', true) /\
+    trace c' = EvP 14 true (map value_of items) :: EvH tag hdr :: trace c /\ queue c' = queue c /\ mem c' = mem c.
+Proof. exact (@EndToEnd.message_reads_array). Qed.
+End T_message_reads_array.
+Definition C02_message_reads_array := @T_message_reads_array.C02_message_reads_array.
 
